@@ -11,7 +11,7 @@ let () = iter_lines (fun line ->
   | "o2" :: s0 :: s1 :: ps ->
     let st = ref (arr2 (z_of_string s0) (z_of_string s1)) in
     let bad = ref "" in
-    List.iter (fun p -> match Gen_Open2N2.coq_UpdateMaxProbe !st (z_of_string p) with
+    Stdlib.List.iter (fun p -> match Gen_Open2N2.coq_UpdateMaxProbe !st (z_of_string p) with
       | Ok (_, s') -> st := s'
       | Stuck -> bad := "Stuck" | Fuel -> bad := "Fuel" | Exn -> bad := "Exn") ps;
     if !bad <> "" then print_endline !bad else
@@ -21,7 +21,7 @@ let () = iter_lines (fun line ->
     let mc = z_of_string m in
     let st = ref (fun i -> if int_of_z i = int_of_z mc then z_of_string x else z_of_int 248) in
     let bad = ref "" in
-    List.iter (fun p -> match Gen_OpenN1.coq_UpdateMaxProbe mc !st (z_of_string p) with
+    Stdlib.List.iter (fun p -> match Gen_OpenN1.coq_UpdateMaxProbe mc !st (z_of_string p) with
       | Ok (_, s') -> st := s'
       | Stuck -> bad := "Stuck" | Fuel -> bad := "Fuel" | Exn -> bad := "Exn") ps;
     if !bad <> "" then print_endline !bad else
@@ -29,4 +29,26 @@ let () = iter_lines (fun line ->
   | ["nx"; kind; i; bc; p] ->
     let f = if kind = "o2" then Gen_Open2N2.coq_GetNextBucketIndex else Gen_Open8.coq_GetNextBucketIndex in
     print_endline (string_of_z (f (z_of_string i) (z_of_string bc) (z_of_string p)))
+  | "tblm" :: kind :: n :: cap :: khs ->
+    (* table-level model: insert the keys (key:hash) in order into an empty 2^n-bucket table; dump buckets + bounds + finds *)
+    let nz = z_of_string n and ni = int_of_string n in
+    let bc = z_of_zarith (Z.shift_left Z.one ni) in
+    let pairs = Stdlib.List.map (fun kh -> match String.split_on_char ':' kh with [k; h] -> (z_of_string k, z_of_string h) | _ -> failwith "kh") khs in
+    let h k = let rec go = function [] -> z_of_int 0 | (k', hc) :: r -> if string_of_z k' = string_of_z k then Gen_BucketBase.coq_GetStartBucketIndex hc bc else go r in go pairs in
+    let capn = nat_of_int (int_of_string cap) in
+    let empty = { OpenTable.bk = (fun _ -> []); OpenTable.bd = (fun _ -> (fun _ -> z_of_int 0)) } in
+    let mc = z_of_int 7 in
+    let (next, upd, dec) =
+      if kind = "o2" then (Gen_Open2N2.coq_GetNextBucketIndex, OpenInstances.upd2, Gen_Open2N2.pvGetMaxProbe)
+      else (Gen_Open8.coq_GetNextBucketIndex, OpenInstances.updN mc, (fun st -> Gen_OpenN1.coq_GetMaxProbe mc st nz)) in
+    let full = ref false in
+    let st = Stdlib.List.fold_left (fun s (k, _) -> match OpenTable.add nz next capn h upd s k with Some s' -> s' | None -> full := true; s) empty pairs in
+    let buf = Buffer.create 256 in
+    for i = 0 to (1 lsl ni) - 1 do
+      let items = Stdlib.List.sort compare (Stdlib.List.map (fun z -> Z.to_string (zarith_of_z z)) (OpenTable.bk st (z_of_int i))) in
+      if items <> [] || string_of_z (dec (OpenTable.bd st (z_of_int i))) <> "0" then
+        Buffer.add_string buf (Printf.sprintf "%d:[%s]:%s;" i (Stdlib.String.concat "," (Stdlib.List.sort (fun a b -> compare (Z.of_string a) (Z.of_string b)) items)) (string_of_z (dec (OpenTable.bd st (z_of_int i)))))
+    done;
+    let allfound = Stdlib.List.for_all (fun (k, _) -> OpenTable.find nz next h dec st k) pairs in
+    Printf.printf "%s found=%b full=%b\n" (Buffer.contents buf) allfound !full
   | _ -> print_endline "?")
